@@ -17,3 +17,27 @@ func TestPM(t *testing.T){
   }
  }
 }
+
+func TestOptimalCostIndexed(t *testing.T) {
+	r := rand.New(rand.NewSource(2))
+	cost := func(m, o uint32) uint64 { return 6 + uint64(m%5) + uint64(o/7) }
+	for it := 0; it < 3000; it++ {
+		n := 1 + r.Intn(80)
+		al := 1 + r.Intn(4)
+		b := make([]byte, n)
+		for i := range b {
+			b[i] = byte('a' + r.Intn(al))
+		}
+		lo := r.Intn(n)
+		start := lo + r.Intn(n-lo)
+		end := start + r.Intn(n-start+1)
+		minM := 1 + r.Intn(4)
+		maxM := minM + r.Intn(10)
+		w := 1 + r.Intn(40)
+		a := OptimalCost(b, lo, start, end, minM, maxM, w, cost, 9)
+		c := OptimalCostIndexed(b, lo, start, end, minM, maxM, w, cost, 9)
+		if a != c {
+			t.Fatalf("%q lo=%d [%d,%d) min=%d max=%d w=%d: %d vs %d", b, lo, start, end, minM, maxM, w, a, c)
+		}
+	}
+}
